@@ -73,7 +73,7 @@ def build_history(rnd: Any, max_ops: int, with_update: bool = True, big: bool = 
         elif r < 0.985:
             op = {'op': 'dup', 'a': rnd.randint(0, 200), 'b': rnd.randint(0, 4), 't': rnd.randint(0, 200)}
         else:
-            op = {'op': 'twice', 'ref': rnd.randint(-1, 200), 'text': rnd.choice(TEXTS), 'extra': rnd.randint(0, 2)}
+            op = {'op': 'twice', 'ref': rnd.randint(-1, 200), 'text': rnd.choice(TEXTS), 'extra': rnd.randint(0, 2), 'via': rnd.choice(['insert', 'insert', 'from_tokens'])}
         case['ops'].append(op)
     return case
 
@@ -224,7 +224,10 @@ def replay(case: dict, after: Callable[[Any, list, Step], Optional[tuple]], toke
                 tok = token_cls(op['text'])
                 batch = [tok] + [token_cls('q') for _ in range(op.get('extra', 0))] + [tok]
                 ref = model[op['ref'] % n] if n and op['ref'] >= 0 else None
-                call = (lambda batch=batch, ref=ref: store.insert_after(ref, batch))
+                if op.get('via') == 'from_tokens':
+                    call = (lambda batch=batch: ts.TokenStore.from_tokens(batch))   # a new store from a batch that names one token twice
+                else:
+                    call = (lambda batch=batch, ref=ref: store.insert_after(ref, batch))
             else:
                 continue
             try:
